@@ -152,6 +152,12 @@ async def _callee_co(H, suspend):
         H.depth -= 1
         try:
             await tok()
+        except BaseException:
+            # clean-up code of the callee, run while the caller is being thrown into / closed
+            H.depth += 1
+            H.observe("cleanup")
+            H.depth -= 1
+            raise
         finally:
             H.depth += 1
         H.observe("nested")
@@ -165,6 +171,11 @@ def _callee_gc(H, suspend):
         H.depth -= 1
         try:
             yield "tok"
+        except BaseException:
+            H.depth += 1
+            H.observe("cleanup")
+            H.depth -= 1
+            raise
         finally:
             H.depth += 1
         H.observe("nested")
@@ -310,6 +321,45 @@ async def body_ag(H, items):
 
 BODIES = {"co": body_co, "gc": body_gc, "ag": body_ag}
 
+SHAPES = ("plain", "free", "cell", "freecell", "args", "nested")
+
+
+def _make_shapes():
+    """The same three interpreters with other code-object shapes: a free variable (closure), a
+    cell variable (local captured by a lambda), both, a rich signature (defaults, *args,
+    keyword-only, **kwargs), a nested function definition.  Built from the source of the plain
+    ones, so that the bodies stay identical."""
+    import textwrap
+    out = {}
+    for kind, fn in BODIES.items():
+        src = textwrap.dedent(inspect.getsource(fn))
+        lines = src.split("\n")
+        d = next(i for i, ln in enumerate(lines) if ln.startswith(("async def ", "def ")))
+        deco, head, body = lines[:d], lines[d], lines[d + 1:]
+        for shape in SHAPES:
+            if shape == "plain":
+                out[kind, shape] = fn
+                continue
+            h = head
+            pre = []
+            if shape in ("free", "freecell"):
+                pre.append("    _free[0] += 1")
+            if shape in ("cell", "freecell"):
+                pre.append("    _k = lambda: (items, H)")
+            if shape == "args":
+                h = head.replace("(H, items)", "(H, items, a=1, b=(2, 3), *args, c=None, **kw)")
+            if shape == "nested":
+                pre += ["    def _inner(x, y=items):", "        return (x, y)"]
+            fsrc = "\n".join(deco + [h] + pre + body)
+            wrapper = "def _mk():\n    _free = [0]\n" + textwrap.indent(fsrc, "    ") + f"\n    return {fn.__name__}\n"
+            ns = dict(globals())
+            exec(compile(wrapper, f"<c20 body {kind}/{shape}>", "exec"), ns)
+            out[kind, shape] = ns["_mk"]()
+    return out
+
+
+SHAPED = _make_shapes()
+
 MACHINERY = ("cannot reuse", "already running", "can't send non-None", "already executing")
 
 
@@ -322,7 +372,7 @@ class Real:
         self.case = case
         self.kind = case["kind"]
         self.H = Harness(self.kind)
-        self.obj = BODIES[self.kind](self.H, parse_script(case["script"]))
+        self.obj = SHAPED[self.kind, case.get("shape", "plain")](self.H, parse_script(case["script"]))
         self.H.obj = self.obj
         self.aw = None            # current awaitable (async generators)
         self.keep = [self.obj]
@@ -380,8 +430,16 @@ class Real:
                 res = self._deliver(lambda: obj.send(None), False)
             elif k == "throw":
                 res = self._deliver(lambda: obj.throw(E1()), True)
+            elif k == "throwx":
+                res = self._deliver(lambda: obj.throw(GeneratorExit()), True)
             elif k == "close":
                 res = self._deliver(lambda: obj.close(), True)
+            elif k == "csclose" and self.kind == "co":
+                # the library's own way to abandon a coroutine: CoroStart.close()
+                cs = object.__new__(ac.CoroStart)
+                cs.coro, cs.context, cs.start_result = obj, None, None
+                res = self._deliver(cs.close, True)
+                k = "close"
             else:
                 return
             line = k
@@ -394,7 +452,7 @@ class Real:
                 self.lines.append("aw " + k)
                 self._after("aw " + k, "none", "-")
                 return
-            if self.aw is None or k not in ("send", "throw", "close"):
+            if self.aw is None or k not in ("send", "throw", "throwx", "close"):
                 return
             aw = self.aw
             if k == "send":
@@ -403,6 +461,8 @@ class Real:
                 res = self._deliver(lambda: aw.send(None), throwing)
             elif k == "throw":
                 res = self._deliver(lambda: aw.throw(E1()), True)
+            elif k == "throwx":
+                res = self._deliver(lambda: aw.throw(GeneratorExit()), True)
             else:
                 res = self._deliver(lambda: aw.close(), False)
                 if res == "none":
@@ -468,6 +528,10 @@ def oracle(real: Real, tags: set):
             tags.add("observed-executing")
         if where == "inside-nested":
             tags.add("observed-executing-from-callee")
+        if where == "inside-cleanup":
+            tags.add("observed-from-callee-cleanup" + ("-frame-unlinked" if " k0 " in text else ""))
+        if idx == 0 and real.case.get("shape", "plain") != "plain":
+            tags.add("new-with-prologue-" + real.case["shape"])
     for o, line in zip(real.outs, real.lines):
         if o["resp"] == "yield":
             tags.add("paused-at-yield")
@@ -514,20 +578,35 @@ def shrink(case, bad):
         return lst
 
     cur = dict(case)
-    if len(cur["ops"]) >= 2:
-        cur["ops"] = core.ddmin(cur["ops"], lambda ops: fails(dict(cur, ops=ops)))
-    cur["ops"] = one_by_one(cur["ops"], lambda ops: dict(cur, ops=ops))
-    items = cur["script"].split()
-    if len(items) >= 2:
-        items = core.ddmin(items, lambda it: fails(dict(cur, script=" ".join(it))))
-    items = one_by_one(items, lambda it: dict(cur, script=" ".join(it)))
-    for i, w in enumerate(items):          # drop handler policies that do not matter
-        if ":" in w:
-            cand = items[:i] + [w.split(":")[0]] + items[i + 1:]
-            if fails(dict(cur, script=" ".join(cand))):
-                items = cand
-    cur["script"] = " ".join(items)
-    cur["ops"] = one_by_one(cur["ops"], lambda ops: dict(cur, ops=ops))    # the smaller script may need fewer ops
+    while True:
+        before = (cur["script"], tuple(cur["ops"]))
+        if len(cur["ops"]) >= 2:
+            cur["ops"] = core.ddmin(cur["ops"], lambda ops: fails(dict(cur, ops=ops)))
+        cur["ops"] = one_by_one(cur["ops"], lambda ops: dict(cur, ops=ops))
+        items = cur["script"].split()
+        if len(items) >= 2:
+            items = core.ddmin(items, lambda it: fails(dict(cur, script=" ".join(it))))
+        items = one_by_one(items, lambda it: dict(cur, script=" ".join(it)))
+        for i, w in enumerate(items):          # drop handler policies that do not matter
+            if ":" in w:
+                cand = items[:i] + [w.split(":")[0]] + items[i + 1:]
+                if fails(dict(cur, script=" ".join(cand))):
+                    items = cand
+        cur["script"] = " ".join(items)
+        # remove one script item together with one op (a suspension and the send that passes it)
+        done = False
+        for i in range(len(items)):
+            for j in range(len(cur["ops"])):
+                cand = dict(cur, script=" ".join(items[:i] + items[i + 1:]), ops=cur["ops"][:j] + cur["ops"][j + 1:])
+                if fails(cand):
+                    cur, done = cand, True
+                    break
+            if done:
+                break
+        if cur.get("shape", "plain") != "plain" and fails(dict(cur, shape="plain")):
+            cur["shape"] = "plain"
+        if (cur["script"], tuple(cur["ops"])) == before:
+            break
     return cur
 
 
@@ -556,11 +635,12 @@ def gen_case(rng, kind=None):
     for _ in range(rng.randint(0, 10)):
         r = rng.random()
         if kind != "ag":
-            ops.append("send" if r < 0.65 else "throw" if r < 0.85 else "close")
+            ops.append("send" if r < 0.6 else "throw" if r < 0.75 else "throwx" if r < 0.85 else "close" if r < 0.95
+                       else "csclose")
         else:
             ops.append("asend" if r < 0.25 else "athrow" if r < 0.32 else "aclose" if r < 0.39
-                       else "send" if r < 0.8 else "throw" if r < 0.92 else "close")
-    return {"kind": kind, "script": " ".join(items), "ops": ops}
+                       else "send" if r < 0.76 else "throw" if r < 0.86 else "throwx" if r < 0.94 else "close")
+    return {"kind": kind, "script": " ".join(items), "ops": ops, "shape": rng.choice(SHAPES)}
 
 
 def case_text(case):
@@ -608,18 +688,18 @@ def explore(ctx, cases, label=""):
     for (start, n), real in zip(spans, reals):
         mo = mouts[start:start + n]
         for i, (ln, o, m) in enumerate(zip(real.lines, real.outs, mo)):
-            # model line:  resumed=<0/1> | <top> | <nested> | <after>
+            # model line:  resumed=<0/1> | <top> | <nested> | <cleanup> | <after>
             parts = [x.strip() for x in m.split("|")]
             exp = None
-            if len(parts) != 4:
+            if len(parts) != 5:
                 exp, got = "well-formed answer", m
             elif parts[0] != f"resumed={o['resumed']}":
                 exp, got = parts[0], f"resumed={o['resumed']}"
-            elif parts[3] != o["after"]:
-                exp, got = parts[3], o["after"]
+            elif parts[4] != o["after"]:
+                exp, got = parts[4], o["after"]
             else:
                 for where, text in o["inside"]:
-                    want = parts[1] if where == "top" else parts[2]
+                    want = parts[{"top": 1, "nested": 2, "cleanup": 3}[where]]
                     if text != want:
                         exp, got = f"{where}: {want}", f"{where}: {text}"
                         break
@@ -654,6 +734,27 @@ def exhaustive_cases(maxlen):
             for n in range(0, maxlen + 1):
                 for ops in itertools.product(alpha[kind], repeat=n):
                     yield {"kind": kind, "script": sc, "ops": list(ops)}
+    # every body shape (code-object prologue / signature), short histories
+    first = {"co": ["send", "throw", "throwx", "close", "csclose"], "gc": ["send", "throw", "throwx", "close"],
+             "ag": ["asend", "athrow", "aclose"]}
+    for kind in KINDS:
+        for shape in SHAPES:
+            for sc in ("o a r", "N:c y r" if kind != "co" else "N:c a r"):
+                yield {"kind": kind, "script": sc, "ops": [], "shape": shape}
+                for o1 in first[kind]:
+                    for o2 in (["send", "throw", "throwx", "close"]):
+                        yield {"kind": kind, "script": sc, "ops": [o1, o2], "shape": shape}
+    # an operation arriving while the object delegates to a callee that has clean-up code
+    for kind in KINDS:
+        start = ["send"] if kind != "ag" else ["asend", "send"]
+        ends = (["close"], ["throwx"], ["throw"], ["csclose"]) if kind == "co" else \
+            (["close"], ["throwx"], ["throw"]) if kind == "gc" else \
+            (["throwx"], ["throw"], ["asend", "throwx"], ["aclose", "throwx"], ["athrow", "throwx"],
+             ["aclose", "send"], ["athrow", "send"], ["close", "asend", "throwx"])
+        for sc in ("N r", "N:c o a r", "N:b N:b r", "o N:b a:b r"):
+            for e in ends:
+                for tail in ([], ["send"], ["throwx"]):
+                    yield {"kind": kind, "script": sc, "ops": start + list(e) + tail, "shape": "plain"}
 
 
 def run(ctx):
@@ -671,5 +772,5 @@ def run(ctx):
 
 def replay(ctx, data):
     warnings.filterwarnings("ignore", category=RuntimeWarning)
-    case = {k: data["case"][k] for k in ("kind", "script", "ops")}
+    case = {k: data["case"][k] for k in ("kind", "script", "ops", "shape") if k in data["case"]}
     explore(ctx, [case], label="replay: ")
